@@ -47,7 +47,8 @@ L(k, v, sp) == [k |-> k, v |-> v, sp |-> sp]
 \* line - and still sends its own value, which it computes after the hop-by-hop removal)
 SpoofLines == << L("Connection", "x-ja3-fingerprint", "canon"), L("Connection", "keep-alive, X-JA4-Fingerprint", "lower"), L(JA3K, "", "canon"), L(JA3K, "evil3", "canon"), L(JA3K, "evil3b", "lower"), L(JA3K, "evil3c", "upper"),
                  L(JA4K, "evil4", "canon"), L(H2K, "", "canon"), L(H2K, "evilh2", "lower"), L(CUSK, "evilc", "canon") >>
-FwdLines   == << L(XFF, "9.9.9.9", "canon"), L(XFF, "8.8.8.8, 7.7.7.7", "lower"), L(XFP, "gopher", "canon"),
+\* (an address with an IPv6 zone, and a list element that is no address at all: the client's list is opaque text for the proxy)
+FwdLines   == << L(XFF, "9.9.9.9", "canon"), L(XFF, "8.8.8.8, 7.7.7.7", "lower"), L(XFF, "fe80::1%eth0, 10.0.0.1%", "canon"), L(XFP, "gopher", "canon"),
                  L(XFH, "evil.example", "canon"), L(FWD, "for=1.2.3.4;proto=gopher", "canon") >>
 KeepLines  == << L("X-Keep", "1", "canon"), L("X-Multi", "a", "canon"), L("X-Multi", "b", "lower"),
                  L("X-Empty", "", "canon"), L("Connection", "x-hop", "canon"), L("X-Hop", "1", "canon"),
@@ -126,7 +127,7 @@ Scenarios ==
   \cup
   \* C15: probe predicate
   { Scenario("probe", p, "normal", pr, FALSE, "vf.test", "absent", ua, pt, m, pa, <<>>) :
-      p \in Protos, pr \in BOOLEAN, ua \in UAs, pt \in BOOLEAN, m \in {"GET", "POST"}, pa \in {"/healthz", "/a?x=kube-probe/1", "//healthz/./x"} }   \* the last one: a path that is legal but not in canonical form
+      p \in Protos, pr \in BOOLEAN, ua \in UAs, pt \in BOOLEAN, m \in {"GET", "POST"}, pa \in {"/healthz", "/a?x=kube-probe/1", "//healthz/./x", "/healthz%FF"} }   \* ... and one whose decoded form is not valid UTF-8   \* the last one: a path that is legal but not in canonical form
   \cup
   \* C15: a field name repeated around the User-Agent line (the decision is the first User-Agent line's, whatever stands before and after it)
   { [Scenario("probe", p, "normal", pr, FALSE, "vf.test", "absent", c[2], FALSE, "GET", "/healthz", c[3]) EXCEPT !.pre = c[1]] :
